@@ -98,6 +98,7 @@ func VerifC13_RemoveAllocation() {
 	pre := w.snap(app)
 	released, confirmed := w.pc.removeAllocation(rel)
 	post := w.snap(app)
+	vAssert(w.countsOK(), "S after any release message the partition's allocation and placeholder counters equal the allocations its nodes hold")
 	known := rel.ApplicationID == "app-1"
 	if !known {
 		vAssert(released == nil && confirmed == nil && pre == post, "S a release for an unknown application is ignored and changes nothing")
@@ -121,6 +122,7 @@ func VerifC13_ReplacedWithoutReplacement() {
 	vAssert(true, "marker")
 	w.pc.removeAllocation(&si.AllocationRelease{ApplicationID: "app-1", AllocationKey: "ask-ph", TerminationType: tt})
 	vAssert(w.pc.GetNode("node-1").GetAllocation("ask-ph") == nil, "S a released placeholder is gone from its node whatever termination type the shim gives")
+	vAssert(w.countsOK(), "S the partition's allocation and placeholder counters equal the allocations its nodes hold, whatever termination type the shim gives")
 	vReach("end")
 }
 
@@ -215,4 +217,18 @@ func VerifC01_P_ForeignAllocationAfterNodeReAdd() {
 		vAssert(!listed || rv(n2.GetOccupiedResource(), i) == rv(res, i), "N a node that lists a foreign allocation has it booked as occupied (available = capacity - allocated - occupied)")
 	}
 	vReach("end")
+}
+
+// countsOK: the partition-wide counters agree with what the nodes hold (non-foreign allocations, placeholders)
+func (w *vPW) countsOK() bool {
+	total, ph := 0, 0
+	for _, n := range w.nodes {
+		for _, a := range n.GetYunikornAllocations() {
+			total++
+			if a.IsPlaceholder() {
+				ph++
+			}
+		}
+	}
+	return w.pc.GetTotalAllocationCount() == total && w.pc.getPhAllocationCount() == ph
 }
